@@ -129,7 +129,7 @@ StepC06(b, k) ==
   IF k = 0 THEN <<Item(IdOf(b, 0, 1), "and_then", "closure", <<>>)>>
   ELSE <<Item(IdOf(b, k, 1), "and_then", "block", <<>>), Item(IdOf(b, k, 2), "map", "call", <<>>)>>
 FamC06(dummy) ==
-  UNION {{Run(P, pl, IF P.kind.spawn /\ ~P.kind.async THEN ItemIds(P, {"and_then"}) ELSE {}) :
+  UNION {{Run(P, pl, IF P.kind.spawn \/ P.kind.async THEN ItemIds(P, {"and_then"}) ELSE {}) :
             pl \in FailPlans(ItemIds(P, {"and_then"}), IF Tier = "quick" THEN 1 ELSE 2)} :
          P \in {Build(kd, "res", pr, StepC06, NoName, ExprInit, "map") : kd \in TryKinds,
                   pr \in IF Tier = "quick" THEN {<<2, 2>>, <<1, 3>>, <<3, 1, 2>>, <<2, 3, 3>>} ELSE Profiles(3, 3)}}
@@ -296,9 +296,16 @@ FamC17(dummy) ==
               sh \in {<<24, 1, 1>>, <<1, 1, 24>>, <<12, 1, 12>>, <<1, 12, 2>>, <<3, 11, 1>>}}}
   \cup {Run(ProgBig(Kind(FALSE, t, TRUE), 12, 2, 2, "none"), <<>>, {}) : t \in BOOLEAN}
 
+\* async try macros: which failing branch completes first depends on the readiness order
+FamC05a(dummy) ==
+  UNION {{Run(P, pl, ItemIds(P, {"and_then"})) : pl \in FailPlans(ItemIds(P, {"and_then"}), 2)} :
+         P \in {ProgC05(Kind(TRUE, TRUE, sp), pr, 0, h, "res") : sp \in BOOLEAN, h \in {"none", "map"},
+                  pr \in IF Tier = "quick" THEN {<<1, 1>>, <<2, 2>>, <<1, 2, 1>>} ELSE {<<1, 1>>, <<2, 2>>, <<1, 2, 1>>, <<2, 2, 2>>, <<1, 3, 2>>}}}
+
 Runs(dummy) ==
   TLCEval(CASE Family = "C04" -> FamC04(0)
             [] Family = "C05" -> FamC05(0)
+            [] Family = "C05a" -> FamC05a(0)
             [] Family = "C03s" -> FamC03s(0)
             [] Family = "C03a" -> FamC03a(0)
             [] Family = "C03h" -> FamC03h(0)
